@@ -123,7 +123,7 @@ def build_pool(fam, rng):
 
 
 OPS = ('is_valid', 'iter_errors', 'validate', 'decode_strict', 'decode_lax', 'decode_skip', 'to_objects', 'encode',
-       'component', 'path_errors', 'lazy_errors', 'hook_stop', 'extra_raise', 'abandon', 'failpoint', 'simple_scratch')
+       'component', 'path_errors', 'lazy_errors', 'hook_stop', 'extra_raise', 'abandon', 'failpoint', 'simple_scratch', 'cache_toggle')
 ABORTING = ('hook_stop', 'extra_raise', 'abandon', 'failpoint', 'validate', 'decode_strict')
 
 
@@ -161,8 +161,14 @@ def run_op(xmlschema, schema, op, text, arg, failpoint):
         except xmlschema.XMLSchemaException as e:
             return ('encode-raised', type(e).__name__)
         elem, eerrs = out if isinstance(out, tuple) else (out, [])
-        from xml.etree.ElementTree import tostring
-        return (tostring(elem) if elem is not None else None), [clean_reason(e.reason) for e in eerrs]
+        # structural, not ET.tostring: its prefixes depend on the process-wide ET namespace registry
+        def sig(e):
+            return (e.tag, tuple(sorted(e.attrib.items())), e.text, e.tail, tuple(sig(c) for c in e))
+        return (sig(elem) if elem is not None else None), [clean_reason(e.reason) for e in eerrs]
+    if op == 'cache_toggle':
+        # the memo caches of the global maps switched off / on again: later results must not depend on it
+        schema.maps.cache.enabled = not schema.maps.cache.enabled
+        return 'toggled'
     if op == 'component':
         res = xmlschema.XMLResource(text)
         root = res.root
